@@ -290,7 +290,8 @@ def run(ctx):
     ctx.rule = ("the nine conversion functions called directly and through InjectGovernanceVAA (drained injectC) under recover(): chain ids 0..2^32-1 around 65535/65536, "
                 "consistency levels around 255/256, 0..65537 sequences, module names of 0/11/31/32/33/64 bytes, hex fields of 62/64/66 digits, odd length, invalid digits, "
                 "0x prefix, upper case, 0..257 guardians, duplicate / zero / malformed keys in every spelling, refund addresses of 0..65537 bytes, unset payload oneof, "
-                "target chains beyond 65535, several messages per request, other governance emitters, seeded random requests of every kind; distinct by request, "
+                "target chains beyond 65535, several messages per request, other governance emitters, seeded random requests of every kind; end to end: requests of every kind "
+                "(and multi-message / partly invalid ones) submitted by three operators to three real processors under two guardian sets; distinct by request, "
                 "non-trivial = not rejected by the bare target-chain test")
     hist = {}
     for r in rows:
@@ -333,7 +334,9 @@ def run(ctx):
     ctx.assumptions = ["the Ralph parsers are translated statement by statement (assert!, let, assignments, if/return, byteVecSlice!, u256From<N>Byte!, size!, U256 arithmetic with "
                        "overflow abort); statements that do not parse the payload (migrate!, transferTokenFromSelf!, subContractId!, isAssetAddress!, blake2b! state check) are left "
                        "out and listed in the extractor info; byteVecToAddress! is the identity on the bytes",
-                       "the envelope values the contract sees (emitter chain / address, sequence, target chain, payload) are those of the VAA (C04: parseAndVerifyVAA reads the fields Go writes)",
+                       "end to end: the VM's ethEcRecover!(hash, r ++ s ++ (v + 27)) is the node-side recovery oracle on r ++ s ++ v; the liveness window excludes guardian-set changes and "
+                       "cleanup ticks at the publishing node; no OTHER own VAA of that node is filed under the request's digest (entries are keyed by digest: the one place a Keccak collision would matter, "
+                       "stated on the history); the contract holds the guardian set in force as its current set and the operator names that set's index",
                        "request fields are protobuf-typed (uint32 / uint64 / string): numbers are non-negative",
                        "guardian-set upgrade is stated for current_set_index + 1 < 2^32 (the index is a 4-byte wire field)",
                        "encoding/hex, go-ethereum IsHexAddress / HexToAddress are hand-modelled and tied by the differential run"]
